@@ -271,3 +271,32 @@ def crc_collider(frame: bytes, rng):
     out = v.to_bytes(len(frame) - 3, "big") + frame[-3:]
     assert refcrc.crc_ref2(out) == 0 and out[:5] == frame[:5]
     return out
+
+
+# ------------------------------------------------------------------ representations of the caller's data
+class BytesSub(bytes):
+    """A bytes subclass (e.g. what some serial / framing layers hand out)."""
+
+
+REPS = ("bytes", "bytearray", "sub", "mview", "mslice", "mprefix")
+
+
+def as_rep(kind, b):
+    """The same byte string as another buffer type: bytes, bytearray, a bytes subclass, a read-only memoryview,
+    or a WRITABLE memoryview that is a proper slice of a larger buffer (foreign bytes on both sides)."""
+    b = bytes(b)
+    if kind == "bytearray":
+        return bytearray(b)
+    if kind == "sub":
+        return BytesSub(b)
+    if kind == "mview":
+        return memoryview(b)
+    if kind == "mslice":
+        return memoryview(bytearray(b"\xd3\x00\x13\x3e\xd0" + b + b"\xd3\x00\x00\x47\xea\x4b" + bytes(40)))[5:5 + len(b)]
+    if kind == "mprefix":  # a view of the first len(b) bytes of a longer (zero-filled) receive buffer
+        return memoryview(bytearray(b + bytes(256)))[: len(b)]
+    return b
+
+
+def pick_rep(rng, p_bytes=0.6):
+    return "bytes" if rng.random() < p_bytes else rng.choice(REPS[1:])
